@@ -18,9 +18,10 @@ def _func(tree: ast.AST, *path: str) -> Optional[ast.AST]:
     for name in path:
         found = None
         for ch in ast.walk(node):
+            # the last definition wins (typing.overload stubs come first)
             if isinstance(ch, (ast.FunctionDef, ast.AsyncFunctionDef, ast.ClassDef)) and ch.name == name and ch is not node:
-                found = ch
-                break
+                if found is None or ch.lineno > found.lineno:
+                    found = ch
         if found is None:
             return None
         node = found
@@ -107,6 +108,37 @@ def extract(repo: Path) -> Tuple[Dict[str, Any], List[str]]:
         out["pruneIsEmptyTuple"] = ok
         if not ok:
             problems.append("_customization.PRUNE is no longer the empty tuple")
+
+    # ---- _customization.py: what customize() forwards in its decorator form, what customize_it sets ----
+    if t is not None:
+        fn = _func(t, "customize")
+        fwd = set()
+        sets = set()
+        if fn is not None:
+            for n in ast.walk(fn):
+                if isinstance(n, ast.Call) and isinstance(n.func, ast.Attribute) and n.func.attr == "partial" \
+                        and n.args and getattr(n.args[0], "id", None) == "customize":
+                    for kw in n.keywords:
+                        if isinstance(kw.value, ast.Name) and kw.value.id == kw.arg:
+                            fwd.add(kw.arg)
+            inner = _func(fn, "customize_it")
+            if inner is not None:
+                for n in ast.walk(inner):
+                    # `if <opt>: frame.<attr> = True`
+                    if isinstance(n, ast.If) and isinstance(n.test, ast.Name):
+                        for b in n.body:
+                            if isinstance(b, ast.Assign) and isinstance(b.targets[0], ast.Attribute) \
+                                    and getattr(b.targets[0].value, "id", None) == "frame" \
+                                    and isinstance(b.value, ast.Constant) and b.value.value is True:
+                                sets.add((n.test.id, b.targets[0].attr))
+            else:
+                problems.append("_customization.customize: inner function customize_it not found")
+        else:
+            problems.append("_customization.customize not found")
+        for opt, lean in (("hide", "fwdHide"), ("hide_line", "fwdHideLine"), ("prune", "fwdPrune"), ("elaborate", "fwdElaborate")):
+            out[lean] = opt in fwd
+        out["setsHide"] = ("hide", "hide") in sets
+        out["setsHideLine"] = ("hide_line", "hide_line") in sets
 
     # ---- _lowlevel.py: skip counts of analyze_with_blocks ----
     t = parse("_lowlevel.py")
